@@ -128,8 +128,13 @@ def check_guarded_calls(ctx, par, rule='E2-guarded-call'):
                 seen.add((key, e.bb))
                 n += 1
                 spec = None; matched = False
+                # whether the call sits in the function itself or in a closure / loop body inside it is immaterial (a for_each turned
+                # into a for loop, or the reverse): guards are re-checked at the call site either way
+                CL = r'(::\{closure#\d+\})+$'
+                src0 = re.sub(CL, '', src)
                 for crx2, sp in allowed.items():
-                    if re.search(crx2, src):
+                    crx0 = re.sub(r'\(?::\\\{closure#\\d\+\\\}\)?[*+]?\$$', '$', crx2)
+                    if re.search(crx2, src) or re.search(crx0, src0):
                         matched = True; spec = sp; break
                 t = b.term(e.bb)
                 loc = '%s:%s' % (t[6]['f'], t[6]['l']) if t[0] == 'call' else b.loc
